@@ -400,7 +400,9 @@ func TestProp_RoundTrip(t *testing.T) {
 		}
 		straddle, exact := false, false
 		for _, backend := range backends {
-			o := open(t, backend, data)
+			// the backend serves its own copy of the bytes: what the caller does with a byte string it was handed (append to
+			// it) must not reach the data that are read afterwards, which are compared with the untouched original
+			o := open(t, backend, append(make([]byte, 0, len(data)+8), data...))
 			r := o.r
 			if little {
 				r.ByteOrder = binary.LittleEndian
@@ -601,6 +603,8 @@ func TestProp_RoundTrip(t *testing.T) {
 						}
 						// a byte string that was read back stays that byte string while later values are read
 						held = append(held, heldBytes{b, pos, sz})
+						// and it is the caller's: appending to it does not write into the reader's data
+						_ = append(b, 0xEE, 0xEE, 0xEE, 0xEE, 0xEE, 0xEE, 0xEE, 0xEE, 0xEE)[:len(b)]
 					} else if want := refDecode(data[pos:pos+sz], little); u != want {
 						t.Fatalf("%s: read %s at %d (little=%v) = %#x, want %#x; data % x", backend, v.kind, pos, little, u, want, data)
 					}
@@ -666,12 +670,28 @@ func TestProp_Seek(t *testing.T) {
 			seeks[i] = sk{int64(rapid.IntRange(-len(data)-3, len(data)+3).Draw(t, "off")), rapid.SampledFrom([]int{0, 1, 2, 0, 1, 2, 3}).Draw(t, "whence")}
 		}
 		okSeeks, sawRel := 0, false
+		// in half of the cases a read runs past the end somewhere in the sequence: Seek goes on working behind it
+		failAt := -1
+		if rapid.Bool().Draw(t, "failedread") {
+			failAt = rapid.IntRange(0, n-1).Draw(t, "failat")
+		}
 		for _, backend := range backends {
 			o := open(t, backend, data)
 			r := o.r
 			ref := bytes.NewReader(data)
 			pos := int64(0)
-			for _, s := range seeks {
+			for si, s := range seeks {
+				if si == failAt && !o.sequential {
+					r.ReadBytes(int64(len(data)) - pos + 1)
+					if r.Err() != io.EOF {
+						t.Fatalf("%s: Err() = %v after a read past the end", backend, r.Err())
+					}
+					pos = r.Pos()
+					if pos < 0 || pos > int64(len(data)) {
+						t.Fatalf("%s: Pos() = %d after a read past the end of %d bytes", backend, pos, len(data))
+					}
+					ref.Seek(pos, 0)
+				}
 				var target int64
 				switch s.whence {
 				case 0:
